@@ -7,6 +7,15 @@ ROOT = os.path.dirname(os.path.dirname(os.path.abspath(__file__)))
 ALL = [f"C{i:02d}" for i in range(1, 21)]
 
 CLAIMED = {
+    "C15": dict(
+        text="z3 over the CURRENT source of Throttle / ThrottleStreamIO executed by an AST interpreter (reals; symbolic chunk sizes, I/O durations, gaps, oversleeps): cumulative bound at every I/O "
+             "start for every level of a stack, shared limit over every interleaving of two streams, independence of clones, no delay when off, no unnecessary delay; vacuity guard, translator validation "
+             "against the real classes, every witness replayed on the real classes in exact rational arithmetic. Plus CrossHair on the real dispatcher / USER / PASV / EPSV / Client for which Throttle objects each stream carries.",
+        note="Trusted: z3, the interpreter (pysym) and its environment models (clock, sleep with oversleep, concurrent join), validated against the real classes on concrete schedules each run. "
+             "Outside: more than 6 sequential I/Os, IEEE-754 rounding, limits outside the grid, more than two streams on one limit.",
+        technique="AST-to-SMT symbolic execution of the real source (pysym + z3, bounded unrolling) and CrossHair for the wiring",
+        design_ref="DESIGN.md section 3 C15",
+    ),
     "C17": dict(
         text="Bounded symbolic execution (CrossHair/z3) of two real dispatcher sessions on one Server: frame condition per verb (B's whole Connection container, transcript and data connection untouched "
              "while A executes one command from symbolic states of both; B's next PWD answers from B's own state), delivery of accepted data connections to the owning session, and two real Clients over "
@@ -163,6 +172,8 @@ def main():
             "add_only": True,
         },
         "engines": [
+            {"name": "pysym-z3", "path": "/verif/vlib/pysym.py", "serves_properties": [p for p in ("C07", "C15") if p in CLAIMED],
+             "kind_free_text": "AST interpreter executing the current source of arithmetic kernels over z3 terms (path forking by feasibility, bounded unrolling, modelled library calls)"},
             {"name": "crosshair-z3", "path": "/verif/vlib/runner.py", "serves_properties": sorted(CLAIMED),
              "kind_free_text": "CrossHair 0.0.110 symbolic execution of generated harnesses over the real aioftp code; z3 decides every branch; "
                                "one process per condition; native replay of every counterexample"},
